@@ -66,6 +66,7 @@ static void* gp_arena_alloc(const GPAllocator* allocator, const size_t _size)
     GPArenaNode* head = arena->head;
 
     void* block = head->position;
+    GP_VERIF_SCHED_POINT("arena-bump", arena); // between reading and updating the position
     if ((uint8_t*)block + size > (uint8_t*)(head + 1) + arena->head->capacity)
     { // out of memory, create new arena
         // Growth is limited by max_size, but the node must fit the requested
